@@ -5,6 +5,7 @@ import (
 	"context"
 	"encoding/json"
 	"fmt"
+	mbig "math/big"
 	"os"
 	"strings"
 	"testing"
@@ -238,6 +239,18 @@ func genCase(t *rapid.T) Case {
 			"len(\"ab\" * " + big + ")",
 			"x = [[1] * 1000000] * 1000000",
 		}).Draw(t, "growth")
+		if rapid.IntRange(0, 3).Draw(t, "wrap") == 0 {
+			// element count x repeat count wraps around 2^64 to a small positive number
+			l := rapid.SampledFrom([]int{3, 4, 5, 7, 8, 12, 16}).Draw(t, "wraplen")
+			delta := rapid.IntRange(0, 3).Draw(t, "wrapdelta")
+			q := new(mbig.Int).Div(new(mbig.Int).Lsh(mbig.NewInt(1), 64), mbig.NewInt(int64(l)))
+			q.Add(q, mbig.NewInt(int64(1+delta)))
+			if rapid.Bool().Draw(t, "wrapstr") {
+				c.Program = "len(\"" + strings.Repeat("x", l) + "\" * " + q.String() + ")"
+			} else {
+				c.Program = "len([" + strings.TrimSuffix(strings.Repeat("1, ", l), ", ") + "] * " + q.String() + ")"
+			}
+		}
 	case 3:
 		c.Family = "nesting"
 		n := rapid.SampledFrom([]int{100, 1000, 9000, 11000, 100000, 2000000}).Draw(t, "nest")
